@@ -78,3 +78,11 @@ Theorem C16_abstract_sound : forall H E fs0 X, wfX H E fs0 X -> forall p cur s a
 Proof. exact exec_sound. Qed.
 Theorem C16_pin_pre_phase : wt_dry_guard_before_block = true /\ wt_execute_has_await = false.
 Proof. exact (conj pin_dry_guard pin_no_await). Qed.
+
+(* ---- source-text pins (generated by harness/pinsets.py) ---- *)
+(* every function of these modules is, text for text (comments and docstrings excluded), the one the models of this
+   property were written against and validated against: harness/translate/srcdigest_t.py, Src/Pin_*.v *)
+From OV Require Import Gen.SrcDigestGen Src.Pin_mcp_write Src.Pin_core_file_ops Src.Pin_cli_main.
+Theorem C16_pin_source_text :
+  src_mcp_write_pinned /\ src_core_file_ops_pinned /\ src_cli_main_pinned.
+Proof. exact (conj src_mcp_write_pinned_ok (conj src_core_file_ops_pinned_ok src_cli_main_pinned_ok)). Qed.
